@@ -124,7 +124,17 @@ class FlowRobust:
         filt = rng.choice(["", "", "1 ", "2 ", "1 2 "])
         if k < 0.25:
             # directed: one flow sample with one record whose declared length / header length is hostile
-            kind = rng.choice(["router", "vlan", "hdrlen", "counts"])
+            kind = rng.choice(["router", "vlan", "hdrlen", "counts", "skiplen"])
+            if kind == "skiplen":
+                # a sample that is SKIPPED (filtered, unsupported type, foreign enterprise) by its declared length: lengths that are
+                # negative as a 32-bit signed number, with a sample count that allows (nearly) endless repetition
+                l = rng.choice([0xfffffff8, 0xfffffff0, 0xfffffffc, 0x80000000, 0xffffffff, 0x7fffffff, 0xfffffff4])
+                tag = rng.choice([3, 4, 5, 77, (4413 << 12) | 1, (1 << 12) | 2, 1, 2])
+                ns = rng.choice([0xffffffff, 0x7fffffff, 1000000, 3])
+                filt = rng.choice(["", "1 ", "2 ", "1 2 ", "3 "]) if tag not in (1, 2) else "%d " % tag
+                p = (struct.pack(">II", 5, 1) + bytes([10, 0, 0, 1]) + struct.pack(">IIII", 0, 1, 2, ns) + struct.pack(">II", tag, l)
+                     + bytes(rng.randrange(256) for _ in range(rng.choice([0, 8, 16, 64]))))
+                return "sflow %s%s" % (filt, hx(p))
             if kind == "router":
                 l = rng.choice(list(range(0, 33)) + [0xffffffff, 0x7fffffff, 1000])
                 body = bytes(rng.randrange(256) for _ in range(rng.choice([0, 4, 8, 12, 20, 28, 40])))
